@@ -25,14 +25,14 @@ func c18Prop(race bool) *pProp {
 		tier: func(tier string) pParams {
 			if tier == "thorough" {
 				if race {
-					return pParams{grammars: 200, extra: 120}
+					return pParams{batches: 4, grammars: 150, extra: 120}
 				}
-				return pParams{grammars: 400, extra: 300}
+				return pParams{batches: 6, grammars: 300, extra: 300}
 			}
 			if race {
-				return pParams{grammars: 24, extra: 30}
+				return pParams{grammars: 32, extra: 30}
 			}
-			return pParams{grammars: 32, extra: 100}
+			return pParams{grammars: 48, extra: 100}
 		},
 		mkReqs: func(r *rng, gp *genParser, p pParams) []*parsersim.Request {
 			var reqs []*parsersim.Request
